@@ -67,6 +67,7 @@ type ATCol struct {
 }
 
 type ATSchema struct {
+	Collide bool
 	Table string
 	Cols  []ATCol
 	PK    []int
@@ -281,6 +282,7 @@ type ATGenOpts struct {
 	AllowFindings bool // also generate statement shapes that are known findings (class-tagged)
 	NullableVals  bool
 	StrPK         bool
+	CollideKeys   bool // composite integer keys whose parts concatenate to the same text: (1,10)/(11,0), (1,11)/(11,1)
 }
 
 func genSchema(r *Rng, table string, o ATGenOpts) *ATSchema {
@@ -298,7 +300,8 @@ func genSchema(r *Rng, table string, o ATGenOpts) *ATSchema {
 	}
 	sc.Cols[0].Name = "id"
 	sc.PK = []int{0}
-	if n >= 3 && r.Chance(30) {
+	sc.Collide = o.CollideKeys
+	if n >= 3 && (r.Chance(30) || o.CollideKeys) {
 		sc.PK = []int{0, 1} // composite key
 		sc.Cols[1].Nullable = false
 		if !o.StrPK {
@@ -323,6 +326,19 @@ func genVal(r *Rng, c ATCol) ATVal {
 func genRows(r *Rng, sc *ATSchema, n int) [][]ATVal {
 	seen := map[string]bool{}
 	var rows [][]ATVal
+	if sc.Collide && len(sc.PK) == 2 && sc.Cols[sc.PK[0]].Typ == 'i' && sc.Cols[sc.PK[1]].Typ == 'i' {
+		for _, kp := range [][2]int64{{1, 10}, {11, 0}, {1, 11}, {11, 1}} {
+			row := make([]ATVal, len(sc.Cols))
+			for i, c := range sc.Cols {
+				row[i] = genVal(r, c)
+			}
+			row[sc.PK[0]] = ATVal{K: 'i', I: kp[0]}
+			row[sc.PK[1]] = ATVal{K: 'i', I: kp[1]}
+			seen[row[sc.PK[0]].Cell()+"/"+row[sc.PK[1]].Cell()+"/"] = true
+			rows = append(rows, row)
+		}
+		n += 4
+	}
 	for len(rows) < n {
 		row := make([]ATVal, len(sc.Cols))
 		for i, c := range sc.Cols {
